@@ -11,16 +11,21 @@ The stop condition (`errStop`) is a truncation of the produced list.
 import NeoModel.Model.Mpt
 namespace NeoModel.Mpt
 
-/-- the branch's own value as a traversal result (`traverse(Children[lastChild], path, from)`). -/
-def vslot (v : Option Val) (path frm : Path) : List (Path × Val) :=
+def isPre (a b : Path) : Bool := (stripPre a b).isSome
+
+/-- the branch's own value as a traversal result (`traverse(Children[lastChild], path, from)`: the
+child is a LeafNode or EmptyNode). -/
+def vslot (back : Bool) (v : Option Val) (path frm : Path) : List (Path × Val) :=
   match v with
-  | some w => if frm = [] then [(path, w)] else []
+  | some w => if frm = [] ∨ back then [(path, w)] else []
   | none => []
 
-/-- billet.go:226-333. `path` is the path of the node, `frm` the remaining start position. -/
+/-- billet.go:229-339. `path` is the path of the node, `frm` the remaining start position.
+A leaf reached with a non-empty `frm` has a key that is a proper prefix of the start position:
+reported backwards, not forwards (billet.go:245-253). -/
 def traverse (back : Bool) : Node → Path → Path → List (Path × Val)
   | .empty, _, _ => []
-  | .leaf v, path, frm => if frm = [] then [(path, v)] else []
+  | .leaf v, path, frm => if frm = [] ∨ back then [(path, v)] else []
   | .ext k n, path, frm =>
     match frm with
     | [] => traverse back n (path ++ k) []
@@ -28,23 +33,24 @@ def traverse (back : Bool) : Node → Path → Path → List (Path × Val)
       match stripPre k frm with
       | some r => traverse back n (path ++ k) r                 -- bytes.HasPrefix(from, n.key)
       | none =>
-        if pathLt frm k then traverse back n (path ++ k) []     -- bytes.Compare(n.key, from) > 0
+        -- bytes.HasPrefix(n.key, from) || (bytes.Compare(n.key, from) > 0) != backwards
+        if isPre frm k ∨ (pathLt frm k) != back then traverse back n (path ++ k) []
         else []
   | .branch cs v, path, frm =>
     match back, frm with
     | false, [] =>
-      vslot v path [] ++ (List.finRange 16).flatMap fun i => traverse back (cs i) (path ++ [i]) []
+      vslot back v path [] ++ (List.finRange 16).flatMap fun i => traverse back (cs i) (path ++ [i]) []
     | false, s :: f =>
       ((List.finRange 16).filter (fun i => s ≤ i)).flatMap fun i =>
         traverse back (cs i) (path ++ [i]) (if i = s then f else [])
     | true, [] =>
-      ((List.finRange 16).reverse.flatMap fun i => traverse back (cs i) (path ++ [i]) []) ++ vslot v path []
+      ((List.finRange 16).reverse.flatMap fun i => traverse back (cs i) (path ++ [i]) []) ++ vslot back v path []
     | true, s :: f =>
       (((List.finRange 16).filter (fun i => i ≤ s)).reverse.flatMap fun i =>
         traverse back (cs i) (path ++ [i]) (if i = s then f else []))
-      -- billet.go:304: the value is traversed with whatever `from` is left: it was reset only if the
-      -- loop ran past the start index, i.e. iff `s ≠ 0`.
-      ++ vslot v path (if s = 0 then f else [])
+      -- billet.go:307: the value is traversed with whatever `from` is left (reset only if the loop
+      -- ran past the start index, i.e. iff `s ≠ 0`); going backwards a leaf is reported either way.
+      ++ vslot back v path (if s = 0 then f else [])
 
 /-- trie.go:96-143 `getWithPath(curr, path, strict=false)`: the node found and its full path. -/
 def getWithPathNS : Node → Path → Option (Node × Path)
@@ -60,8 +66,6 @@ def getWithPathNS : Node → Path → Option (Node × Path)
       match stripPre k p with
       | some r => (getWithPathNS n r).map fun x => (x.1, k ++ x.2)
       | none => if (stripPre p k).isSome then some (n, k) else none
-
-def isPre (a b : Path) : Bool := (stripPre a b).isSome
 
 /-- trie.go:582-638 `Find(prefix, from, maxNum)` on nibble paths; `frm = none` is `from == nil`.
 Result paths are relative to the prefix; `none` = error. -/
@@ -91,7 +95,7 @@ def seek (t : Node) (pre fromP : Path) (back : Bool) : List (Path × Val) :=
     if fromP = [] then traverse back start path []
     else if path.length ≤ fromP.length ∧ isPre path fromP then traverse back start path (fromP.drop path.length)
     else if path.length > fromP.length ∧ isPre fromP path then traverse back start path []
-    else if (pathLt path fromP) == back then []          -- `cmp < 0 == rng.Backwards`
+    else if (pathLt fromP path) == back then []          -- `cmp > 0 == rng.Backwards`
     else traverse back start path []
 
 end NeoModel.Mpt
